@@ -1,4 +1,5 @@
 import LabtechModel.Model.Env
+import LabtechModel.Proofs.Inv2Erase
 /-!
 # C16 — Each task runs in the environment its backend and context promise
 
@@ -11,12 +12,12 @@ open Lt.Env
 
 /-- whichever backend: when `run()` executes, the task's context is its own filter applied to the
     Lab's context -/
-theorem context_seen (b : Backend) (filt : Ctx → Ctx) (labCtx : Ctx) :
+theorem context_seen (b : Env.Backend) (filt : Ctx → Ctx) (labCtx : Ctx) :
     contextInRun b filt labCtx false = some (filt labCtx) := by
   cases b <;> simp [contextInRun, contextPassed]
 
 /-- a loaded task's `run()` does not execute, and no context is set -/
-theorem no_context_when_loaded (b : Backend) (filt : Ctx → Ctx) (labCtx : Ctx) :
+theorem no_context_when_loaded (b : Env.Backend) (filt : Ctx → Ctx) (labCtx : Ctx) :
     contextInRun b filt labCtx true = none := by simp [contextInRun]
 
 /-- the context never influences the cache key or the stored metadata of any task -/
@@ -40,7 +41,7 @@ theorem select_default (ms : List String) :
 
 /-- the executor creates its processes with the start method named by the backend, and the serial
     runner creates none -/
-theorem start_method (b : Backend) :
+theorem start_method (b : Env.Backend) :
     (b = .serial → startMethod b = none ∧ runsIn b = .callerProcess) ∧
     (b = .fork → startMethod b = some "fork" ∧ runsIn b = .childProcess) ∧
     (b = .spawn → startMethod b = some "spawn" ∧ runsIn b = .childProcess) := by
@@ -62,3 +63,102 @@ example : workerView .spawn ⟨0, 1, 2⟩ = 0 ∧ workerView .fork ⟨0, 1, 2⟩
   refine ⟨rfl, rfl, rfl, by simp [selectBackend], by simp [contextInRun, contextPassed]⟩
 
 end Lt.Props.C16
+
+namespace Lt.Props.C16
+open Lt
+
+/-- what erasure keeps of an event: its kind, task, `use_cache` flag, the outcome constructor, the
+    removed / retained keys, and which dependency reads succeeded — only computed values are dropped -/
+theorem zev_spec (t : Tid) (uc : Bool) (v : Val) (seen : List (Option Val)) (a b : List Tid) :
+    zev (.submit t uc) = .submit t uc ∧ zev (.start t) = .start t ∧ zev (.load t) = .load t ∧
+    zev (.waitEnter a b) = .waitEnter a b ∧ zev (.remove a b) = .remove a b ∧
+    zev (.yield t (.ok v)) = .yield t (.ok 0) ∧ zev (.yield t .exc) = .yield t .exc ∧
+    zev (.yield t .died) = .yield t .died ∧
+    zev (.exec t seen) = .exec t (seen.map (Option.map (fun _ => 0))) :=
+  ⟨rfl, rfl, rfl, rfl, rfl, rfl, rfl, rfl, rfl⟩
+
+/-- two problems that differ only in what `run()` computes (`behave`: context, arithmetic, …) and
+    have the same success pattern have runs of the same shape: equal traces up to values, equal
+    store keys, equal returned keys -/
+theorem context_noninterference_run (cfg : Config) (p : Problem)
+    (b₂ : Tid → List (Option Val) → Option Val) (store : Store) (fuel : Nat) (sched : List Choice)
+    (obj : Tid → Iid) (H : RefHypF p obj) (hcf : cfg.contOnFail = true)
+    (hpat : ∀ t ∈ (plan cfg p store fuel).pending,
+      (refEvalF cfg p store obj t).isSome = (refEvalF cfg { p with behave := b₂ } store obj t).isSome) :
+    (run cfg p store fuel sched).trace.map zev
+      = (run cfg { p with behave := b₂ } store fuel sched).trace.map zev ∧
+    (run cfg p store fuel sched).store.map Prod.fst
+      = (run cfg { p with behave := b₂ } store fuel sched).store.map Prod.fst ∧
+    zst (run cfg p store fuel sched).status = zst (run cfg { p with behave := b₂ } store fuel sched).status ∧
+    (run cfg p store fuel sched).marked = (run cfg { p with behave := b₂ } store fuel sched).marked := by
+  have h := run_shape_eq cfg p b₂ store fuel sched obj H hcf hpat
+  have hs : zl (run cfg p store fuel sched).store = zl (run cfg { p with behave := b₂ } store fuel sched).store :=
+    congrArg RS.store h
+  have hm : (zrs (run cfg p store fuel sched)).marked
+      = (zrs (run cfg { p with behave := b₂ } store fuel sched)).marked := by rw [h]
+  refine ⟨congrArg RS.trace h, ?_, congrArg RS.status h, hm⟩
+  rw [← zl_keys, hs, zl_keys]
+
+/-- the same, from a value-free condition on the two behaviours: whether `run()` succeeds depends
+    only on which dependency reads succeed, identically for both -/
+theorem context_noninterference_uniform (cfg : Config) (p : Problem)
+    (b₂ : Tid → List (Option Val) → Option Val) (store : Store) (fuel : Nat) (sched : List Choice)
+    (obj : Tid → Iid) (H : RefHypF p obj) (hcf : cfg.contOnFail = true)
+    (hu : ∀ t vs ws, vs.map Option.isSome = ws.map Option.isSome →
+      (p.behave t vs).isSome = (b₂ t ws).isSome) :
+    (run cfg p store fuel sched).trace.map zev
+      = (run cfg { p with behave := b₂ } store fuel sched).trace.map zev ∧
+    (run cfg p store fuel sched).store.map Prod.fst
+      = (run cfg { p with behave := b₂ } store fuel sched).store.map Prod.fst := by
+  have hpat : ∀ t ∈ (plan cfg p store fuel).pending,
+      (refEvalF cfg p store obj t).isSome = (refEvalF cfg { p with behave := b₂ } store obj t).isSome := by
+    intro t ht
+    obtain ⟨_, hti⟩ := planned_repr cfg p store fuel t ht
+    have := same_pattern_of_uniform cfg p b₂ store obj H hu _ (repr0 (plan cfg p store fuel) t) (Nat.lt_succ_self _)
+    rw [hti] at this
+    exact this
+  have h := context_noninterference_run cfg p b₂ store fuel sched obj H hcf hpat
+  exact ⟨h.1, h.2.1⟩
+
+/-- a second behaviour ("another context"): other values, always succeeds -/
+def ctxB : Tid → List (Option Val) → Option Val := fun t vs => some (7 * t + vs.length)
+
+/-- the hypothesis is needed: a behaviour with a different success pattern writes different keys -/
+theorem success_pattern_needed :
+    (run invExCfg invExP [] 4 (List.replicate 5 chooseAll)).store.map Prod.fst ≠
+    (run invExCfg { invExP with behave := fun t vs => if t = 2 then none else invExP.behave t vs } [] 4
+      (List.replicate 5 chooseAll)).store.map Prod.fst := by decide
+
+/-- non-vacuity: the diamond under a second behaviour ("another context"): different values, same
+    shape of the trace, same store keys -/
+def shapeLit : List Ev :=
+  [.submit 1 true, .start 1, .submit 0 false, .start 0, .waitEnter [] [1, 0], .load 1, .exec 0 [],
+   .yield 1 (.ok 0), .remove [] [1], .yield 0 (.ok 0), .remove [] [0, 1], .submit 2 false, .start 2,
+   .waitEnter [] [2], .exec 2 [some 0], .yield 2 (.ok 0), .remove [0] [2, 1], .submit 3 false, .start 3,
+   .waitEnter [] [3], .exec 3 [some 0, some 0], .yield 3 (.ok 0), .remove [1, 2, 3] []]
+
+example : (run invExCfg invExP [(1, 5)] 4 (List.replicate 4 chooseAll)).trace.map zev = shapeLit := by decide
+
+example : (run invExCfg { invExP with behave := ctxB } [(1, 5)] 4 (List.replicate 4 chooseAll)).trace.map zev
+    = shapeLit := by decide
+
+example :
+    (run invExCfg invExP [(1, 5)] 4 (List.replicate 4 chooseAll)).store = [(3, 5005), (2, 2000), (0, 0), (1, 5)] ∧
+    (run invExCfg { invExP with behave := ctxB } [(1, 5)] 4 (List.replicate 4 chooseAll)).store
+      = [(3, 23), (2, 15), (0, 0), (1, 5)] := by decide
+
+/-- the hypotheses of `context_noninterference_uniform` are satisfiable (both behaviours always succeed) -/
+example (be : Backend) (sched : List Choice) :
+    (run { invExCfg with backend := be } invExP [] 4 sched).store.map Prod.fst
+      = (run { invExCfg with backend := be } { invExP with behave := ctxB } [] 4 sched).store.map Prod.fst :=
+  (context_noninterference_uniform { invExCfg with backend := be } invExP ctxB [] 4 sched id
+    ⟨invExP_acyclic, by
+      intro i j h
+      simp only [invExP] at h ⊢
+      by_cases h4 : i = 4 <;> by_cases h4' : j = 4 <;> simp_all <;> grind, by
+      intro i
+      simp only [invExP, id]
+      split <;> simp_all⟩ rfl (by intro t vs ws _; rfl)).2
+
+end Lt.Props.C16
+
